@@ -25,6 +25,11 @@
 (* A file of the tree is [st, v]: st = "absent" (no such file), "num"      *)
 (* (decimal integer v and a newline), "junk" (non-numeric text) or         *)
 (* "unreadable" (the file is listed but open/read fails with an OSError).  *)
+(*                                                                         *)
+(* Bounds are fixed by the generated cfg (harness/props/c19.py: consts):   *)
+(* quick: TempVals {0, 1000, 45000, 100000}, 1-3 CPUs, Wide = FALSE        *)
+(* (9.5k trees); thorough: Wide = TRUE, + 80000 and -5000 m°C, 4 CPUs      *)
+(* (54k trees).  Symbolic micro-units / counters are scaled by the driver. *)
 (***************************************************************************)
 EXTENDS Naturals, Integers, Sequences, FiniteSets, TLC, Json
 
@@ -209,11 +214,11 @@ SmallTempSeqs == {<<>>, <<TA1>>, <<TA2>>, <<TA1, TA2>>}
 SmallChips == {Chip(n, p[1], p[2], ts, fs) : n \in Names, p \in Placings, ts \in SmallTempSeqs, fs \in {<<>>, <<FA1>>}}
 TempChips(w) == {Chip(n, p[1], p[2], ts, fs) : n \in Names, p \in Placings, ts \in TempSeqs, fs \in {<<>>, <<FA1>>}}
 FanChips(w) == {Chip(n, p[1], p[2], ts, fs) : n \in Names, p \in Placings, ts \in {<<>>, <<TA1>>}, fs \in FanSeqs}
-SecondChips(w) == IF w THEN {Chip("nct6775", p[1], p[2], ts, <<>>) : p \in Placings, ts \in TempSeqs} ELSE SmallChips
+SecondChips(w) == SmallChips \cup (IF w THEN {Chip(n, p[1], p[2], ts, <<>>) : n \in Names, p \in Placings, ts \in TempSeqs} ELSE {})
 OneFull(w) == {Chip("coretemp", p[1], p[2], <<s>>, <<>>) : p \in {<<"direct", FALSE>>, <<"device", FALSE>>}, s \in FullTemps(w)}
 TwoFull(w) == IF w
               THEN {Chip("k10temp", "direct", FALSE, <<s, t>>, <<>>) :
-                      s \in [input : {Unread, Num(45000)}, max : ThreshFiles, crit : {Absent, Num(100000)}, label : {"absent"}],
+                      s \in [input : {Unread, Num(45000)}, max : ThreshFiles, crit : ThreshFiles, label : {"absent"}],
                       t \in [input : {Absent, Num(1000)}, max : {Absent, Junk, Num(0)}, crit : ThreshFiles, label : {"Core 0"}]}
               ELSE {}
 
